@@ -73,6 +73,7 @@ def plan(tier: str, seed: int) -> Plan:
         mc = [o for o in items if o[0].startswith(("move:", "copy:"))]
         core = [o for o in mc if any(s in o[0] for s in ("containers->", "->arr-dash", "->arr-index", "->own-child", "->root", "root->", "missing->obj-new",
                                                           "arr-index->obj-new", "obj->top-new", "digit-name->obj-new"))]
+        core.sort(key=lambda o: 0 if "containers->" in o[0] else 1)
         items = keep + core[:52]
     items += sequences(rng, 120 if thorough else 10, 2)
     if thorough:
